@@ -12,17 +12,16 @@ Proof.
 Qed.
 
 Lemma param_create_wf n i l u f p :
-  param_create n i l u f = Some p -> g_bounds_not_nan l u = true -> param_wf p = true.
+  param_create n i l u f = Some p -> param_wf p = true.
 Proof.
-  unfold param_create, g_bounds_not_nan, param_wf.
+  unfold param_create, param_wf.
   destruct (isnan i) eqn:Ei; [discriminate|].
   set (l' := match l with None => XNegInf | Some x => x end).
   set (u' := match u with None => XPosInf | Some x => x end).
+  destruct (isnan l' || isnan u') eqn:EN; [discriminate|].
+  apply orb_false_iff in EN. destruct EN as [Nl Nu].
   destruct (xlt i l') eqn:E1; [discriminate|]. destruct (xlt u' i) eqn:E2; [discriminate|].
-  intros H G. inversion H; subst p. cbn [p_lower p_init p_upper].
-  apply andb_true_iff in G. destruct G as [G1 G2]. apply negb_true_iff in G1, G2.
-  assert (Nl : isnan l' = false) by (subst l'; destruct l; [exact G1 | reflexivity]).
-  assert (Nu : isnan u' = false) by (subst u'; destruct u; [exact G2 | reflexivity]).
+  intros H. inversion H; subst p. cbn [p_lower p_init p_upper].
   rewrite (xlt_false_xle _ _ Ei Nl E1), (xlt_false_xle _ _ Nu Ei E2). reflexivity.
 Qed.
 
@@ -32,35 +31,27 @@ Proof.
   apply negb_true_iff. assumption.
 Qed.
 
-(* completeness: an init outside non-NaN bounds, or a NaN init, is refused *)
+(* completeness: an init outside the bounds, a NaN init or a NaN bound is refused (xle with NaN is false) *)
 Lemma param_create_rejects n i l u f :
-  g_bounds_not_nan l u = true ->
   (isnan i = true \/
    xle (match l with None => XNegInf | Some x => x end) i = false \/
    xle i (match u with None => XPosInf | Some x => x end) = false) ->
   param_create n i l u f = None.
 Proof.
-  unfold param_create, g_bounds_not_nan. intros G H.
+  unfold param_create. intros H.
   destruct (isnan i) eqn:Ei; [reflexivity|].
-  apply andb_true_iff in G. destruct G as [G1 G2]. apply negb_true_iff in G1, G2.
   set (l' := match l with None => XNegInf | Some x => x end) in *.
   set (u' := match u with None => XPosInf | Some x => x end) in *.
-  assert (Nl : isnan l' = false) by (subst l'; destruct l; [exact G1 | reflexivity]).
-  assert (Nu : isnan u' = false) by (subst u'; destruct u; [exact G2 | reflexivity]).
+  destruct (isnan l' || isnan u') eqn:EN; [reflexivity|].
+  apply orb_false_iff in EN. destruct EN as [Nl Nu].
   destruct H as [H|[H|H]]; [discriminate| |].
   - rewrite (xle_false_xlt _ _ Nl Ei H). reflexivity.
   - destruct (xlt i l'); [reflexivity|]. rewrite (xle_false_xlt _ _ Ei Nu H). reflexivity.
 Qed.
 
 Lemma param_replace_wf p n i l u f q :
-  param_replace p n i l u f = Some q ->
-  isnan (match l with Some x => x | None => p_lower p end) = false ->
-  isnan (match u with Some x => x | None => p_upper p end) = false ->
-  param_wf q = true.
-Proof.
-  unfold param_replace. intros H Nl Nu. eapply param_create_wf; [exact H|].
-  unfold g_bounds_not_nan. rewrite Nl, Nu. reflexivity.
-Qed.
+  param_replace p n i l u f = Some q -> param_wf q = true.
+Proof. unfold param_replace. intros H. eapply param_create_wf. exact H. Qed.
 
 Lemma param_wf_not_nan p : param_wf p = true -> isnan (p_lower p) = false /\ isnan (p_upper p) = false.
 Proof.
@@ -71,6 +62,7 @@ Qed.
 Lemma param_create_name n i l u f p : param_create n i l u f = Some p -> p_name p = n.
 Proof.
   unfold param_create. destruct (isnan i); [discriminate|].
+  destruct (isnan _ || isnan _); [discriminate|].
   destruct (xlt i _); [discriminate|]. destruct (xlt _ i); [discriminate|].
   intros H. inversion H. reflexivity.
 Qed.
@@ -90,8 +82,7 @@ Proof.
     { destruct (alookup_x inits (p_name p)) as [i|].
       - split.
         + unfold param_replace in EQ. apply param_create_name in EQ. exact EQ.
-        + intros Hp. destruct (param_wf_not_nan p Hp) as [N1 N2].
-          eapply param_replace_wf; [exact EQ | exact N1 | exact N2].
+        + intros _. eapply param_replace_wf. exact EQ.
       - inversion EQ; subst. split; auto. }
     destruct Hq as [Hq1 Hq2]. split.
     + cbn [map]. rewrite Hq1, HN. reflexivity.
@@ -160,9 +151,20 @@ Proof.
   - apply IH; [assumption | assumption |]. intros y Hy HI. apply (HD y Hy). right. exact HI.
 Qed.
 
-Lemma rvs_add_wf r d : rvs_wf r = true -> g_fresh_names r d = true -> rvs_wf (rvs_add r d) = true.
+Lemma rvs_add_unique r d q : rvs_add r d = Some q -> q = r ++ [d] /\ NoDup (concat q).
+Proof. unfold rvs_add. apply rvs_create_seq_unique. Qed.
+
+Lemma rvs_create_single_unique d q : rvs_create_single d = Some q -> q = [d] /\ NoDup d.
 Proof.
-  unfold rvs_wf, g_fresh_names, rvs_add. intros Hr G. apply andb_true_iff in G. destruct G as [G1 G2].
+  unfold rvs_create_single. intros H. destruct (rvs_create_seq_unique _ _ H) as [E ND]. subst q.
+  cbn [concat] in ND. rewrite app_nil_r in ND. auto.
+Qed.
+
+(* rvs + dist is accepted exactly when the added names are fresh and distinct *)
+Lemma rvs_add_accepts r d : rvs_wf r = true -> g_fresh_names r d = true -> rvs_add r d = Some (r ++ [d]).
+Proof.
+  unfold rvs_wf, g_fresh_names, rvs_add, rvs_create_seq. intros Hr G. apply andb_true_iff in G. destruct G as [G1 G2].
+  assert (E : names_ok (concat (r ++ [d])) = true); [|rewrite E; reflexivity].
   apply names_ok_NoDup. rewrite concat_app. cbn [concat]. rewrite app_nil_r.
   apply NoDup_app_intro; [apply names_ok_NoDup; exact Hr | apply names_ok_NoDup; exact G1|].
   intros x Hx HI. apply negb_true_iff in G2.
